@@ -540,6 +540,62 @@ def unit_docs(tier, seed):
 # jobs
 
 
+# --------------------------------------------------------------------------
+# documents given as BYTES (with and without a UTF-8 byte-order mark), whose first characters are encoded with the
+# bytes of the mark itself (U+FEFF, U+FEFB, U+FFFB, U+FFFF) or begin with its first byte (U+F000, U+EFFF, fullwidth
+# forms): the text of the document is what the same characters give as str - nothing is dropped with the mark
+
+BYTES_LEAD = ["\ufeff", "\ufefb", "\ufffb", "\uffff", "\uf000", "\uefff", "\uff21", "\u00ef\u00bb\u00bf", "a", "\n", "${'x'}", "## c\n", "%% p\n", "<%text>\ufefb</%text>"]
+
+
+def bytes_docs():
+    for n in (1, 2, 3):
+        for w in itertools.product(BYTES_LEAD, repeat=n):
+            if n == 3 and not (w[0] in BYTES_LEAD[:8] and w[1] in BYTES_LEAD[:8]):
+                continue
+            yield "".join(w)
+
+
+def check_bytes_doc(s, st, scratch):
+    import codecs
+
+    from mako.template import Template
+
+    def run(f):
+        try:
+            return ("ok", f().render_unicode())
+        except BaseException as e:  # noqa
+            return ("exc", type(e).__name__)
+
+    want = run(lambda: Template(s))
+    fn = os.path.join(scratch, "b.html")
+    routes = [("bom+bytes", lambda: Template(codecs.BOM_UTF8 + s.encode("utf-8")))]
+    if not s.startswith("\ufeff"):
+        routes.append(("bytes", lambda: Template(s.encode("utf-8"))))
+
+    def from_file():
+        with open(fn, "wb") as f:
+            f.write(codecs.BOM_UTF8 + s.encode("utf-8"))
+        return Template(filename=fn)
+
+    routes.append(("bom+file", from_file))
+    st.states += 1
+    st.traces += 1
+    if any(c in s for c in BYTES_LEAD[:8]):
+        st.nontrivial += 1
+    for name, f in routes:
+        st.evaluations += 1
+        st.transitions += 1
+        st.oracles["bytes-as-str"] += 1
+        got = run(f)
+        st.outcomes[("bytes", name, got[0], "same" if got == want else "differs")] += 1
+        if got != want:
+            lead = "U+%04X" % ord(s[0])
+            st.violation("bytes:%s:text after the byte-order mark %s" % (name.split("+")[0], "dropped or changed" if got[0] == "ok" else "rejected (" + got[1] + ")"),
+                         {"kind": "bytes", "text": s, "route": name}, "a document given as bytes is the document its characters give as str (first character " + lead + ")", expected=list(want), observed=list(got))
+            break
+
+
 def plan(tier, seed):
     n = core.NPROC
     jobs = [{"kind": "words", "tier": tier, "seed": seed, "shard": i, "nshards": n} for i in range(n)]
@@ -547,6 +603,7 @@ def plan(tier, seed):
     fams = list(families(tier))
     for i in range(n):
         jobs.append({"kind": "time", "tier": tier, "seed": seed, "fams": fams[i::n]})
+    jobs.append({"kind": "bytes", "tier": tier, "seed": seed})
     return jobs
 
 
@@ -607,6 +664,13 @@ def _run_job(job, st):
         st.extra["unit_docs"] = len(seen)
     elif job["kind"] == "time":
         check_family_batch([tuple(f) for f in job["fams"]], b["rep_max"], st, limit=b["time_limit"])
+    elif job["kind"] == "bytes":
+        scratch = core.scratch_dir("c01b")
+        n = 0
+        for src in bytes_docs():
+            check_bytes_doc(src, st, scratch)
+            n += 1
+        st.extra["bytes_docs"] = n
     return st
 
 
@@ -784,6 +848,8 @@ def replay(case):
     st = Stats()
     if case["kind"] == "time":
         check_family_batch([tuple(case["family"])], 8192, st, limit=case.get("limit", 20))
+    elif case["kind"] == "bytes":
+        check_bytes_doc(case["text"], st, core.scratch_dir("c01b"))
     elif case["kind"] == "units":
         s = case["text"]
         check_unit_doc(s, st)
